@@ -9,6 +9,7 @@
   the Go source breaks `C18_stage_order` and `C18_pipeline`.
 -/
 import IocProofs.Lemmas.ValueC18
+import IocProofs.Lemmas.ValueTwice
 namespace Ioc.C18
 open Ioc Ioc.Tag Ioc.Value
 
@@ -112,6 +113,35 @@ theorem C18_validate_absent (J : Json) (validate : FVal → List Bytes → Bool)
   · rw [validateStage_spec]
     cases Tag.find args kValidate <;> simp [isPtrTy, zero]
 
+/-- The stage order holds on EVERY population of a property, not only the first.  A Property object keeps TagStr,
+    TagVal, its arguments and its field between two creations of its component; running the processors over such a
+    left-over state — any TagVal `leftVal`, any field contents `leftBound` — is, when TagStr contains a placeholder,
+    again   quote (on TagStr, under the CURRENT configuration) ≫ expression ≫ bind ≫ validate:
+    the expression is evaluated after the placeholders were substituted with the current values, and validation
+    judges the value bound now (the old field contents only when nothing is bound now). -/
+theorem C18_repopulate_pipeline (J : Json) (evalE : Bytes → Except Err Val) (validate : FVal → List Bytes → Bool)
+    (cfg : Cfg) (ty : FieldTy) (tagStr leftVal : Bytes) (args : Args) (leftBound : Option FVal)
+    (r : Bytes × Bytes × Bytes) (hf : findEl cDollar tagStr = some r) :
+    runStagesOn J evalE validate cfg ty stageOrder ⟨true, tagStr, leftVal, args, leftBound⟩ =
+      (quoteStage J cfg tagStr >>= fun s1 => exprStage J evalE s1 >>= fun s2 => valueStage J args ty s2 >>= fun b =>
+        validateStage validate args ty (b.orElse fun _ => leftBound) >>= fun b' => pure ⟨true, tagStr, s2, args, b'⟩) ∧
+    runStagesOn J evalE validate cfg ty stageOrder ⟨false, tagStr, leftVal, args, leftBound⟩ =
+      (quoteStage J cfg tagStr >>= fun s1 => exprStage J evalE s1 >>= fun s2 => prefixStage cfg args ty s2 >>= fun b =>
+        validateStage validate args ty (b.orElse fun _ => leftBound) >>= fun b' => pure ⟨false, tagStr, s2, args, b'⟩) :=
+  ⟨runStages_value_some J evalE validate cfg ty tagStr leftVal args leftBound r hf,
+   runStages_prefix_some J evalE validate cfg ty tagStr leftVal args leftBound r hf⟩
+
+/-- A tag WITHOUT a placeholder is skipped by the quote processor (`if !MatchString(TagStr) continue`): the later
+    stages start from the TagVal the property holds — TagStr itself on a fresh property, the text an earlier
+    population left otherwise. -/
+theorem C18_repopulate_no_placeholder (J : Json) (evalE : Bytes → Except Err Val) (validate : FVal → List Bytes → Bool)
+    (cfg : Cfg) (ty : FieldTy) (tagStr leftVal : Bytes) (args : Args) (leftBound : Option FVal)
+    (hf : findEl cDollar tagStr = none) :
+    runStagesOn J evalE validate cfg ty stageOrder ⟨true, tagStr, leftVal, args, leftBound⟩ =
+      (exprStage J evalE leftVal >>= fun s2 => valueStage J args ty s2 >>= fun b =>
+        validateStage validate args ty (b.orElse fun _ => leftBound) >>= fun b' => pure ⟨true, tagStr, s2, args, b'⟩) :=
+  runStages_value_none J evalE validate cfg ty tagStr leftVal args leftBound hf
+
 /-! ### non-vacuity and worked examples (by evaluation of the model) -/
 
 /-- a toy engine: knows three expression texts -/
@@ -157,5 +187,29 @@ example : quoteStage goJson cfgAB (ofString "#{${a}+${b}}") = .ok (exprTag (ofSt
 example : WFpre cComma isLB isRB (ofString "#{${a}+${b}}") 0 = true := by decide
 -- the hypotheses of C18_validate_iff are met
 example : Tag.find [(ofString "Validate", [ofString "min=6"])] kValidate = some [ofString "min=6"] := by decide
+
+-- a holder populated twice.  `#{${a} ${op} ${b}},validate=min=6`: first op = "+" gives 2 + 3 = … the toy engine
+-- does not know "2 + 3": the first creation fails in the expression stage; op is then set to "*": the second creation
+-- evaluates "2 * 3" on the CURRENT values and binds 6, which satisfies min=6
+def cfgPlus : Cfg := fun k => if k = ofString "op" then .str (ofString "+") else cfgAB k
+def holderE : List HProp :=
+  [⟨.int, ⟨true, ofString "#{${a} ${op} ${b}}", ofString "#{${a} ${op} ${b}}", [(ofString "Validate", [ofString "min=6"])], none⟩⟩]
+example : (createTwice goJson toyE toyV cfgPlus cfgAB false holderE).first = some .expr ∧
+    (createTwice goJson toyE toyV cfgPlus cfgAB false holderE).second = none ∧
+    (createTwice goJson toyE toyV cfgPlus cfgAB false holderE).props.map (·.st.bound) = [some (.int 6)] := by decide +kernel
+-- `#{${a}+${b}},validate=min=6` binds 5 and fails validation; the creation is repeated after b was set to … the same
+-- configuration: it fails again, for the same reason (TagVal "5" left by the first population is not consulted)
+def holderV : List HProp :=
+  [⟨.int, ⟨true, ofString "#{${a}+${b}}", ofString "#{${a}+${b}}", [(ofString "Validate", [ofString "min=6"])], none⟩⟩]
+example : (createTwice goJson toyE toyV cfgAB cfgAB false holderV).first = some .validate ∧
+    (createTwice goJson toyE toyV cfgAB cfgAB false holderV).second = some .validate ∧
+    ((populateAll goJson toyE toyV cfgAB stageOrder holderV).1.map (·.st.tagVal)) = [ofString "5"] := by decide +kernel
+-- a creation that fails AFTER its properties were populated (a dependency that cannot be created): populated again
+example : (createTwice goJson toyE toyV cfgAB cfgAB true holderE).failed = true ∧
+    (createTwice goJson toyE toyV cfgAB cfgAB true holderE).props.map (·.st.bound) = [some (.int 6)] := by decide +kernel
+-- a creation that succeeds is not repeated
+example : (createTwice goJson toyE toyV cfgAB cfgPlus false holderE).failed = false ∧
+    (createTwice goJson toyE toyV cfgAB cfgPlus false holderE).props.map (·.st.bound) = [some (.int 6)] := by decide +kernel
+example : (findEl cDollar (ofString "#{${a} ${op} ${b}}")).isSome = true := by decide
 
 end Ioc.C18
